@@ -43,6 +43,10 @@ impl<I: Interner> Forest<I> {
         goal: &UCanonical<InEnvironment<Goal<I>>>,
     ) -> impl AnswerStream<I> + 'f {
         let table = self.get_or_create_table_for_ucanonical_goal(context, goal.clone());
+        #[cfg(chalk_verif)]
+        chalk_ir::verif::emit("Stream", |f| {
+            f.int("table", table.value);
+        });
         let answer = AnswerIndex::ZERO;
         ForestSolver {
             forest: self,
@@ -66,33 +70,69 @@ impl<'me, I: Interner> AnswerStream<I> for ForestSolver<'me, I> {
     /// Panics if a negative cycle was detected.
     fn peek_answer(&mut self, should_continue: impl Fn() -> bool) -> AnswerResult<I> {
         loop {
+            #[cfg(chalk_verif)]
+            {
+                let (verif_t, verif_a) = (
+                    self.table.value,
+                    crate::verif::answer_index_value(self.answer),
+                );
+                chalk_ir::verif::emit("RootBegin", |f| {
+                    f.int("table", verif_t).int("ans", verif_a);
+                });
+            }
             match self
                 .forest
                 .root_answer(self.context, self.table, self.answer)
             {
                 Ok(answer) => {
+                    #[cfg(chalk_verif)]
+                    chalk_ir::verif::emit("RootEnd", |f| {
+                        f.str("res", "Answer").bool("amb", answer.ambiguous);
+                    });
                     debug!(answer = ?(&answer));
                     return AnswerResult::Answer(answer);
                 }
 
                 Err(RootSearchFail::InvalidAnswer) => {
+                    #[cfg(chalk_verif)]
+                    chalk_ir::verif::emit("RootEnd", |f| {
+                        f.str("res", "InvalidAnswer").bool("amb", false);
+                    });
                     self.answer.increment();
                 }
                 Err(RootSearchFail::Floundered) => {
+                    #[cfg(chalk_verif)]
+                    chalk_ir::verif::emit("RootEnd", |f| {
+                        f.str("res", "Floundered").bool("amb", false);
+                    });
                     return AnswerResult::Floundered;
                 }
 
                 Err(RootSearchFail::NoMoreSolutions) => {
+                    #[cfg(chalk_verif)]
+                    chalk_ir::verif::emit("RootEnd", |f| {
+                        f.str("res", "NoMoreSolutions").bool("amb", false);
+                    });
                     return AnswerResult::NoMoreSolutions;
                 }
 
                 Err(RootSearchFail::QuantumExceeded) => {
+                    #[cfg(chalk_verif)]
+                    chalk_ir::verif::emit("RootEnd", |f| {
+                        f.str("res", "QuantumExceeded").bool("amb", false);
+                    });
                     if !should_continue() {
+                        #[cfg(chalk_verif)]
+                        chalk_ir::verif::emit("Stop", |_| {});
                         return AnswerResult::QuantumExceeded;
                     }
                 }
 
                 Err(RootSearchFail::NegativeCycle) => {
+                    #[cfg(chalk_verif)]
+                    chalk_ir::verif::emit("RootEnd", |f| {
+                        f.str("res", "NegativeCycle").bool("amb", false);
+                    });
                     // Negative cycles *ought* to be avoided by construction. Hence panic
                     // if we find one, as that likely indicates a problem in the chalk-solve
                     // lowering rules. (In principle, we could propagate this error out,
@@ -107,6 +147,8 @@ impl<'me, I: Interner> AnswerStream<I> for ForestSolver<'me, I> {
     fn next_answer(&mut self, should_continue: impl Fn() -> bool) -> AnswerResult<I> {
         let answer = self.peek_answer(should_continue);
         self.answer.increment();
+        #[cfg(chalk_verif)]
+        chalk_ir::verif::emit("Advance", |_| {});
         answer
     }
 
